@@ -110,6 +110,9 @@ func (g *Global) LLString() string {
 	fmt.Fprintf(buf, "%s =", g.Ident())
 	if g.Linkage != enum.LinkageNone {
 		fmt.Fprintf(buf, " %s", g.Linkage)
+	} else if g.Init == nil {
+		// A global declaration (without initializer) has external linkage.
+		buf.WriteString(" external")
 	}
 	if g.Preemption != enum.PreemptionNone {
 		fmt.Fprintf(buf, " %s", g.Preemption)
